@@ -1,0 +1,49 @@
+//go:build verif
+
+// Contracts for package sandbox, checked by /verif/govc (comment-only file).
+package sandbox
+
+// ---- C14: the generated container specification is locked down
+//@ pred hasOpt(m Mount, o string) = exists k in 0..len(m.Options) :: m.Options[k] == o
+//@ pred roIfBind(m Mount) = m.Type == "bind" ==> hasOpt(m, "ro")
+//@ pred okMount(m Mount) = roIfBind(m) && allocated(m.Options)
+//@ pred hasNS(l *Linux, t string) = exists k in 0..len(l.Namespaces) :: l.Namespaces[k].Type == t
+//@ pred reserved(p string) = p == "/app/sfw" || p == "/proc" || p == "/sys" || p == "/dev" || p == "/tmp" || p == "/gocache"
+
+// In a sequence sorted by destination, a mount point precedes everything mounted beneath it (parent before child).
+//@ lemma [C14.order] forall d: map[int]string, n: int :: (forall a, b in 0..n :: a < b ==> d[a] <= d[b]) ==> (forall a, b in 0..n :: hasPrefix(d[b], d[a] + "/") ==> a < b)
+
+//@ func resolveGoToolchain
+//@   noframe
+
+//@ func generateSpec$1
+//@   requires 0 <= i && i < len(*mounts) && 0 <= j && j < len(*mounts)
+//@   ensures result == ((*mounts)[i].Destination < (*mounts)[j].Destination)
+
+//@ func generateSpec
+//@   noframe
+//@   ghost at map[int]int
+//@   ghost sortinv map[int]int
+//@   ensures [C14.root] result1 == nil ==> result0 != nil && result0.Root != nil && result0.Root.Readonly
+//@   ensures [C14.caps] result1 == nil ==> result0.Process != nil && result0.Process.Capabilities != nil && len(result0.Process.Capabilities.Bounding) == 0 && len(result0.Process.Capabilities.Effective) == 0
+//@   ensures [C14.caps] result1 == nil ==> len(result0.Process.Capabilities.Inheritable) == 0 && len(result0.Process.Capabilities.Permitted) == 0 && len(result0.Process.Capabilities.Ambient) == 0
+//@   ensures [C14.nnp] result1 == nil ==> result0.Process.NoNewPrivileges
+//@   ensures [C14.ns] result1 == nil ==> result0.Linux != nil && hasNS(result0.Linux, "network") && hasNS(result0.Linux, "pid") && hasNS(result0.Linux, "ipc") && hasNS(result0.Linux, "uts") && hasNS(result0.Linux, "mount") && hasNS(result0.Linux, "user")
+//@   ensures [C14.limits] result1 == nil ==> result0.Linux.Resources != nil && result0.Linux.Resources.Memory != nil && result0.Linux.Resources.Memory.Limit == MemLimitBytes && result0.Linux.Resources.Pids != nil && result0.Linux.Resources.Pids.Limit == PidsMax
+//@   ensures [C14.proxy] result1 == nil ==> exists k in 0..len(result0.Process.Env) :: result0.Process.Env[k] == "GOPROXY=off"
+//@   ensures [C14.ro] result1 == nil ==> forall k in 0..len(result0.Mounts) :: roIfBind(result0.Mounts[k])
+//@   ensures [C14.order] result1 == nil ==> forall a, b in 0..len(result0.Mounts) :: a < b ==> result0.Mounts[a].Destination <= result0.Mounts[b].Destination
+//@   ensures [C14.reserved] result1 == nil ==> forall k in 0..len(cfg.Mounts) :: !reserved(absPath(cfg.Mounts[k]))
+//@   ensures [C14.requested] result1 == nil ==> forall k in 0..len(cfg.Mounts) :: 0 <= sortinv[at[k]] && sortinv[at[k]] < len(result0.Mounts) && result0.Mounts[sortinv[at[k]]].Destination == absPath(cfg.Mounts[k]) && result0.Mounts[sortinv[at[k]]].Source == realPath(absPath(cfg.Mounts[k])) && result0.Mounts[sortinv[at[k]]].Type == "bind"
+//@   loop 1 invariant 0 <= #i && (sref(*mounts) == 0 || fresh(*mounts)) && forall k in 0..len(*mounts) :: okMount((*mounts)[k])
+//@   loop 2 invariant 0 <= #i && (sref(*mounts) == 0 || fresh(*mounts)) && forall k in 0..len(*mounts) :: okMount((*mounts)[k])
+//@   loop 2 invariant forall k in 0..#i :: !reserved(absPath(cfg.Mounts[k]))
+//@   loop 2 update at = store(prev(at), prev(#i), len(prev(*mounts)))
+//@   loop 2 invariant forall k in 0..#i :: 0 <= at[k] && at[k] < len(*mounts) && (*mounts)[at[k]].Destination == absPath(cfg.Mounts[k]) && (*mounts)[at[k]].Source == realPath(absPath(cfg.Mounts[k])) && (*mounts)[at[k]].Type == "bind"
+
+// A mount point escapes the root file system when its path relative to the root climbs out of it.
+//@ pred escapesRoot(rootfs string, dest string) = hasPrefix(relPath(rootfs, joinPath(rootfs, dest)), "..") || hasPrefix(relPath(rootfs, joinPath(rootfs, dest)), "/")
+
+//@ func prepareMountPoints
+//@   ensures [C14.escape] result == nil ==> forall k in 0..len(mounts) :: !escapesRoot(rootfs, mounts[k].Destination)
+//@   loop 1 invariant 0 <= #i && forall k in 0..#i :: !escapesRoot(rootfs, mounts[k].Destination)
